@@ -88,6 +88,9 @@ func SetAutoYieldRate(seed uint64, every, lockEvery uint64) {
 				return
 			}
 			autoYieldState = autoYieldState*6364136223846793005 + 1442695040888963407
+			if yieldDebug != nil {
+				yieldDebug("y")
+			}
 			if (autoYieldState>>33)%autoYieldEvery == 0 {
 				autoYieldCount++
 				// mostly a single yield; sometimes a long preemption: the goroutine gives its
@@ -114,6 +117,9 @@ func SetAutoYieldRate(seed uint64, every, lockEvery uint64) {
 			return
 		}
 		autoYieldState = autoYieldState*6364136223846793005 + 1442695040888963407
+		if yieldDebug != nil {
+			yieldDebug("l")
+		}
 		x := autoYieldState >> 33
 		if softEvery > 0 && !softSuspended && x%softEvery == 0 && heldDepth[verifGoid()] == 0 {
 			softW.softPark(softQuanta[(autoYieldState>>41)%uint64(len(softQuanta))])
@@ -130,6 +136,9 @@ func SetAutoYieldRate(seed uint64, every, lockEvery uint64) {
 }
 
 var autoYieldLockBursts = []int{16, 64, 64, 256}
+
+// yieldDebug (VERIF_YIELDLOG=<file>): every arrival at an inserted point, with its call site
+var yieldDebug func(kind string)
 
 // ---- soft parks: the kernel stalls a goroutine right before a mutex acquisition ----
 
